@@ -133,6 +133,7 @@ class Ctx:
             "forall": _Quant(self, True), "exists": _Quant(self, False),
             "int": int, "str": str, "bool": bool, "len": len,
             "Node": "Node", "Trans": "Trans", "Guard": "Guard", "Event": "Event", "Opaque": "Opaque",
+            **{cn: cn for cn in w.classes}, **{cn + "Set": cn + "Set" for cn in w.classes},
             "keys": lambda d: list(d),
             "keyidx": lambda d, k: (list(d).index(k) if k in d else -1),
             "store": lambda m, k, v: {**m, k: v},
